@@ -65,8 +65,61 @@ func allLib(c *cat.Catalog) bool {
 	return n > 0
 }
 
+// nilResults rewrites the prediction for functions whose single results are nil pointers
+// (Enc.NilRes): what a consumer receives from them, and what is cached, reads as zero.
+func nilResults(c *cat.Catalog, want *Entry) *Entry {
+	any := false
+	for _, f := range c.Fns {
+		if f.Enc.NilRes {
+			any = true
+		}
+	}
+	if !any {
+		return want
+	}
+	isNil := func(p univ.Prov) bool {
+		f := c.Fns[p.F]
+		return f != nil && f.Enc.NilRes && p.E == 0 && p.I >= 1 && p.I <= len(f.Rs) && f.Rs[p.I-1].M != "flat" && !(f.Kind == "dec" && f.Rs[p.I-1].M == "grp")
+	}
+	w := *want
+	w.Log = append([]Event(nil), want.Log...)
+	for i := range w.Log {
+		ev := w.Log[i]
+		if ev.T != "exec" {
+			continue
+		}
+		args := make([][]univ.Prov, len(ev.Args))
+		for j, a := range ev.Args {
+			args[j] = append([]univ.Prov(nil), a...)
+			for x := range args[j] {
+				if isNil(args[j][x]) {
+					args[j][x] = univ.Zero
+				}
+			}
+		}
+		ev.Args = args
+		w.Log[i] = ev
+	}
+	if want.Snap != nil {
+		sn := *want.Snap
+		fix := func(cs []Cell) []Cell {
+			out := append([]Cell(nil), cs...)
+			for i := range out {
+				if isNil(out[i].V) {
+					out[i].V = univ.Zero
+				}
+			}
+			return out
+		}
+		sn.Vals, sn.DVals, sn.Grps = fix(sn.Vals), fix(sn.DVals), fix(sn.Grps)
+		w.Snap = &sn
+	}
+	return &w
+}
+
 // CompareEntry compares the prediction want with the observation got for operation idx.
 func CompareEntry(c *cat.Catalog, dry bool, idx int, want, got *Entry) []Divergence {
+	want = nilResults(c, want)
 	var ds []Divergence
 	add := func(kind, detail string, fatal bool) {
 		ds = append(ds, Divergence{Kind: kind, Op: idx, Detail: detail, Fatal: fatal})
